@@ -548,11 +548,22 @@ func (C12) Judge(c *Ctx, sc *Scenario) []Violation {
 			faults += "+" + tag
 		}
 	}
+	// a fault the kernel raised by itself: the small volume ran out of room. It leaves no hook event; it is
+	// recognised by the kernel's own account (no free block left when the process had ended) together with
+	// the errno in yq's report, whatever else was injected in that run
+	diskFull := out.SmallDisk && out.DiskFree == 0 && bytes.Contains(out.Stderr, []byte("no space left on device"))
+	if diskFull {
+		if faults == "none" {
+			faults = "disk:full"
+		} else {
+			faults += "+disk:full"
+		}
+	}
 	if len(out.Events) == 0 {
 		// untraced run (write faults by strace): the path is known from the set-up
 		path = "rename"
-		if sc.TmpOther {
-			path = "sibling"
+		if sc.TmpOther || out.SmallDisk {
+			path = "sibling" // a small disk is a file system of its own: TMPDIR is on another one
 			for _, f := range sc.Plan.Steps {
 				if f.Action == "error" && (f.Site == "copy.sibling.create" || f.Site == "copy.sibling.rename") {
 					path = "inplace"
@@ -626,6 +637,12 @@ func (C12) Judge(c *Ctx, sc *Scenario) []Violation {
 	}
 	if out.SmallDisk && !c.Quiet {
 		c.Count("probe.volume_without_room_for_a_second_copy")
+		if diskFull {
+			c.Count("fired.disk_full")
+			if path == "inplace" {
+				c.Count("probe.volume_ran_out_of_room_while_the_target_was_overwritten_in_place")
+			}
+		}
 	}
 	if injectedPanic && !c.Quiet {
 		c.Count("probe.runtime_failure_unwound_through_the_in_place_finaliser")
